@@ -116,6 +116,8 @@ func (m *member) rowsFor(tn string, order []int) (rows [][]any, fns [][]any) {
 // ---------------------------------------------------------------- SQL feed (E-CHSQL behind the reader's seam)
 
 type sqlFeed struct {
+	execs    int
+	flipFrom int // > 0: executions from this number on hand siblings over in reverse order
 	sess  *sqldrv.Session
 	reg   *sqldrv.Registry
 	svc   *rservice.ProfService
@@ -241,6 +243,21 @@ func (f *sqlFeed) exec(q string) (tree [][]any, fns [][]any, err error) {
 		}
 		tree = append(tree, []any{t[0], t[1], t[2], t[3], t[4]})
 	}
+	// the statement orders the tree rows by parent id only: the order of siblings is the server's choice. For the
+	// second side of a self-diff the siblings of each parent are handed over in the opposite order.
+	f.execs++
+	if f.flipFrom > 0 && f.execs >= f.flipFrom {
+		for i := 0; i < len(tree); {
+			j := i
+			for j < len(tree) && tree[j][0] == tree[i][0] {
+				j++
+			}
+			for a, b := i, j-1; a < b; a, b = a+1, b-1 {
+				tree[a], tree[b] = tree[b], tree[a]
+			}
+			i = j
+		}
+	}
 	fns = make([][]any, 0, len(fa))
 	for _, v := range fa {
 		t, ok := v.(chsql.Tuple)
@@ -335,6 +352,29 @@ func (f *sqlFeed) serviceHTTP(w window, maxNodes int64) (*prof.FlameGraph, error
 		return nil, errors.New("no flame graph in the response")
 	}
 	return res.Flamegraph, nil
+}
+
+// diffSelf asks for the diff of a selection with itself (ProfService.RenderDiff, both sides the same query and
+// window) and returns the levels (7 values per bar: left offset, left total, left self, right offset, right total,
+// right self, name index) and the two tick counts.
+func (f *sqlFeed) diffSelf(w window) (levels [][]int64, left, right int64, err error) {
+	f.err = nil
+	q := w.typeID + w.selector
+	f.mu.Lock()
+	f.flipFrom = f.execs + 2 // the left side as the statement returns it, the right side with siblings reversed
+	f.mu.Unlock()
+	defer func() { f.mu.Lock(); f.flipFrom = 0; f.mu.Unlock() }()
+	fb, err := f.svc.RenderDiff(context.Background(), q, q, w.from, w.from, w.to, w.to)
+	if err != nil {
+		if f.err != nil {
+			return nil, 0, 0, f.err
+		}
+		return nil, 0, 0, err
+	}
+	if fb == nil || fb.FlamebearerProfileV1.Flamebearer == nil {
+		return nil, 0, 0, errors.New("no flame graph in the diff")
+	}
+	return fb.FlamebearerProfileV1.Flamebearer.Levels, fb.FlamebearerProfileV1.LeftTicks, fb.FlamebearerProfileV1.RightTicks, nil
 }
 
 // serviceConcurrently sends one request per window at the same time (as the panels of one dashboard do); the
